@@ -336,7 +336,7 @@ func strs(v any) []string {
 	return out
 }
 
-var styles = []string{"dot", "getattr", "import", "importas", "from", "fromas"}
+var styles = []string{"dot", "getattr", "import", "importas", "from", "fromas", "fwd"}
 
 func isIdent(s string) bool { return token.LookupIdentifier(s) == token.IDENT }
 
@@ -360,6 +360,12 @@ func render(p []string, style string) string {
 		return e
 	}
 	switch style {
+	case "fwd":
+		// the script declares a function with the top-level name itself and reads the name before the definition
+		if len(p) != 1 {
+			return ""
+		}
+		return "zq := " + p[0] + "\nfunc " + p[0] + "() {\n}\nzq"
 	case "dot":
 		return hops(p[0], p[1:], false)
 	case "getattr":
